@@ -64,7 +64,9 @@ TraceSigEv ==
                                          "C10.dpkgsig_manifest_matches_members", "C10.deb_signature_member", "C10.apk_signature_member",
                                          "C10.rpm_signature_tags"}) # {}
                 THEN {"C06.success_only_with_a_complete_signature"} ELSE {}
-     IN Rec(req \cup c06, doc, IF HasPrefix(e.err, "parse:") \/ HasPrefix(e.err, "decode:") THEN {"harness_" \o SubSeq(e.err, 1, 6)} ELSE {})
+         \* a package reported as built whose signature member cannot even be decoded as a signature
+         undec == IF e.built /\ HasPrefix(e.err, "decode:") THEN {"C10.signature_member_is_a_signature", "C06.success_only_with_a_complete_signature"} ELSE {}
+     IN Rec(req \cup c06 \cup undec, doc, IF HasPrefix(e.err, "parse:") THEN {"harness_parse"} ELSE {})
   /\ UNCHANGED <<cid, ncases, x>>
 
 (* Sig!KeyOfSignature across builds of one process: a signature is made with the key that is in the key file when the *)
